@@ -138,7 +138,9 @@ def rule_add_to(chk, idx, tier):
                         out = ex
                     runs += 1
                     rels = sorted(rel(v, d) for d in D)
-                    key = (len(D), tuple(rels))
+                    oidx = [i for i, d in enumerate(Dord) if overlap(v, d)]
+                    contiguous = (not oidx) or (oidx[-1] - oidx[0] + 1 == len(oidx))
+                    key = (len(D), tuple(rels), contiguous)
                     st = classes.setdefault(key, {'n': 0, 'bad': [], 'overlapping': []})
                     st['n'] += 1
                     if isinstance(out, PyExc):
@@ -172,8 +174,8 @@ def rule_add_to(chk, idx, tier):
                         st['bad'].append((Dord, v, why))
         # report per relation pattern, independent of how many untouched ('apart') spans stand around and of the tier's sizes
         fam = {}
-        for (n, rels), st in classes.items():
-            core = tuple(sorted(set(r for r in rels if r != 'apart')))
+        for (n, rels, contiguous), st in classes.items():
+            core = (tuple(sorted(set(r for r in rels if r != 'apart'))), contiguous)
             f = fam.setdefault(core, {'n': 0, 'bad': [], 'overlapping': []})
             f['n'] += st['n']
             f['nbad'] = f.get('nbad', 0) + len(st['bad'])
@@ -182,9 +184,12 @@ def rule_add_to(chk, idx, tier):
             f['overlapping'].extend(st['overlapping'][:2])
         for core in sorted(fam):
             st = fam[core]
+            core_rels, contiguous = core
             desc = 'new span %s' % (' and '.join({'covers': 'covers an accepted span', 'crosses': 'crosses an accepted span',
                                                   'inside': 'lies inside an accepted span', 'equal': 'equals an accepted span'}[r]
-                                                 for r in core) if core else 'touches no accepted span')
+                                                 for r in core_rels) if core_rels else 'touches no accepted span')
+            if core_rels:
+                desc += '; the overlapped entries are %s in the accepted list' % ('consecutive' if contiguous else 'not consecutive')
             construct = '%s.add_to[%s]' % (k.name, desc)
             if st['overlapping']:
                 D, v, got = sorted(st['overlapping'], key=lambda t: (len(t[0]), t))[0]
